@@ -219,3 +219,39 @@ Proof.
   - intro OK. pose proof (ok_visible _ _ OK 2 0) as H. vm_compute in H.
     specialize (H (or_intror (or_intror (or_introl eq_refl))) eq_refl). discriminate.
 Qed.
+
+(* ------------------------------------------------------------------ converse: no valid scene is rejected *)
+Lemma number_In_inv : forall l st q d, In q (number st l) ->
+  exists i, i < length l /\ q = mkReq (st + i) (doptional (nth i l d)) true.
+Proof.
+  unfold number. induction l as [|x l IH]; intros st q d H; cbn [length seq combine map] in H; [destruct H|].
+  destruct H as [<-|H].
+  - exists 0. cbn [length nth fst snd]. split; [lia|]. now rewrite Nat.add_0_r.
+  - destruct (IH (S st) q d H) as (i & Hi & ->). exists (S i). cbn [length nth]. split; [lia|].
+    now rewrite Nat.add_succ_r.
+Qed.
+
+Theorem scene_ok_accepted : forall lt st durs sc w l users u,
+  consistent sc w -> default_requirements sc = Some l ->
+  (forall a b, w_surf w a b = true -> w_inter w a b = true) ->
+  (forall q, In q users -> length l <= rid q /\ optional q = false) ->
+  SceneOK sc w ->
+  (forall q, In q users -> active q = true -> u (rid q) = false) ->
+  snd (check_with lt st (number 0 l ++ users) (dsample w l u) durs) = Accept.
+Proof.
+  intros lt st durs sc w l users u C D S Hu OK Huser.
+  assert (all_hold w l) as AH by (now apply (defaults_complete sc w l C D)).
+  assert (forall i, i < length l -> dsample w l u i = dfals w (nth i l (RContain 0))) as DS.
+  { intros i Hi. unfold dsample. apply Nat.ltb_lt in Hi. now rewrite Hi. }
+  apply accept_iff.
+  - intros r Hr Ha Ho Hs. apply in_app_or in Hr. destruct Hr as [Hr|Hr].
+    + destruct (number_In_inv l 0 r (RContain 0) Hr) as (i & Hi & ->). cbn [Nat.add rid optional] in *.
+      rewrite (DS i Hi) in Hs.
+      destruct (blanket_implied sc w l C D S (nth i l (RContain 0)) (nth_In l _ Hi) Ho Hs) as (r' & Hr' & Ho' & Hs').
+      rewrite (AH r' Hr' Ho') in Hs'. discriminate.
+    + destruct (Hu r Hr) as [_ X]. congruence.
+  - intros r Hr Ha Ho. apply in_app_or in Hr. destruct Hr as [Hr|Hr].
+    + destruct (number_In_inv l 0 r (RContain 0) Hr) as (i & Hi & ->). cbn [Nat.add rid optional] in *.
+      rewrite (DS i Hi). apply AH; [now apply nth_In|exact Ho].
+    + destruct (Hu r Hr) as [Hge _]. unfold dsample. apply Nat.ltb_ge in Hge. rewrite Hge. now apply Huser.
+Qed.
